@@ -244,13 +244,13 @@ def run_negative(prop, only_portable):
     return rep
 
 
-def tlc_trace(module, cfg, trace_file, timeout=1200):
+def tlc_trace(module, cfg, trace_file, timeout=1200, prop=None):
     """TLC trace validation: accepts iff every recorded event is a step of the specification."""
     metadir = os.path.join(WORK, "tlc", "meta.trace.%s.%d" % (module, os.getpid()))
     cmd = ["timeout", str(timeout), "java", "-XX:+UseParallelGC", "-Xmx6g", "-Xss1g", "-Dtlc2.tool.queue.IStateQueue=StateDeque",
            "-cp", TLA_CP, "tlc2.TLC", "-workers", "1", "-metadir", metadir, "-cleanup", "-noGenerateSpecTE", "-config", cfg, module + ".tla"]
     t0 = time.time()
-    r = subprocess.run(cmd, cwd=SPEC, stdout=subprocess.PIPE, stderr=subprocess.STDOUT, text=True, env=dict(os.environ, TRACE=trace_file))
+    r = subprocess.run(cmd, cwd=SPEC, stdout=subprocess.PIPE, stderr=subprocess.STDOUT, text=True, env=dict(os.environ, TRACE=trace_file, **({"PROP": prop} if prop else {})))
     shutil.rmtree(metadir, ignore_errors=True)
     out = r.stdout
     rejected = [l for l in out.splitlines() if "TRACE-REJECTED" in l]
@@ -259,7 +259,7 @@ def tlc_trace(module, cfg, trace_file, timeout=1200):
     if not ok and not rejected:
         raise ToolError("TLC trace validation %s failed (rc=%s):\n%s" % (module, r.returncode, "\n".join(out.splitlines()[-15:])))
     return {"accepted": ok, "rejected": rejected[:1], "states": int(m.group(2)) if m else 0, "wall_s": round(time.time() - t0, 1),
-            "cmd": "TRACE=%s tlc -workers 1 -config %s %s.tla" % (os.path.relpath(trace_file, ROOT), cfg, module)}
+            "cmd": "%sTRACE=%s tlc -workers 1 -config %s %s.tla" % ("PROP=%s " % prop if prop else "", os.path.relpath(trace_file, ROOT), cfg, module)}
 
 
 def run_apalache(module, obligations):
@@ -333,7 +333,7 @@ def run_trace_step(prop, stp, seed):
         return {"cases_run": nev, "counts": {"trace.%s.events" % stp["driver"]: max(nev, 1), "judged." + prop: nev}, "samples": {}, "sigs": {sig: {"count": 1, "first": v}}, "kept": [],
                 "trace": {"accepted": False, "rejected": [crashed], "states": 0, "wall_s": 0.0, "cmd": "driver crashed"}}
     module = stp.get("module", "TraceFlat")
-    res = tlc_trace(module, module + ".cfg", trace)
+    res = tlc_trace(module, module + ".cfg", trace, prop=prop)
     rep = {"cases_run": nev, "counts": {"trace.%s.events" % stp["driver"]: nev, "judged." + prop: nev}, "samples": {}, "sigs": {}, "kept": [], "trace": res}
     with open(trace) as f:
         first = f.readline().strip()
